@@ -84,6 +84,33 @@ static std::string case_text(const TypeRow& t, uint64_t u) {
   char b[128]; snprintf(b, sizeof b, "prop=C20 type=%s bits=0x%" PRIx64, t.name, u); return b;
 }
 
+// Conversions used as initialisers of namespace-scope constants (network-byte-order constants): an implementation
+// with a separate constant-evaluation path must give the same result there. X(type, function, value)
+#define C20_CONSTANTS(X) \
+  X(std::uint16_t, ToBig, 80) X(std::uint16_t, FromBig, 0x0050) X(std::uint16_t, ToLittle, 80) X(std::int16_t, ToBig, 0x0012) X(std::int16_t, FromBig, -2) \
+  X(std::uint32_t, ToBig, 1) X(std::uint32_t, FromBig, 0x00abcdef) X(std::uint32_t, ToBig, 0x80000001u) X(std::int32_t, ToBig, 0x00001234) X(std::int32_t, FromLittle, 0x00001234) \
+  X(std::uint64_t, ToBig, 0x0000000000abcdefull) X(std::uint64_t, FromBig, 0x00ff000000000001ull) X(std::int64_t, ToBig, 7) X(std::int64_t, ToBig, -7) \
+  X(std::uint8_t, ToBig, 0x7f) X(std::int8_t, FromBig, -128)
+namespace c20const {
+struct Row { const char* type; const char* fn; std::uint64_t input_bits, got_bits; std::size_t size; bool big; };
+template <typename T> static std::uint64_t bits_of(T v) { std::uint64_t u = 0; std::memcpy(&u, &v, sizeof v); return u; }
+static std::vector<Row> rows() {
+  std::vector<Row> r;
+  // each entry: a function-local `static const` is initialised in a manifestly constant-evaluated context when the
+  // initialiser is a constant expression, dynamically otherwise
+#define X(T, F, V) { static const T k = nop::HostEndian<T>::F(static_cast<T>(V)); r.push_back({#T, #F, bits_of<T>(static_cast<T>(V)), bits_of<T>(k), sizeof(T), std::string(#F).find("Big") != std::string::npos}); }
+  C20_CONSTANTS(X)
+#undef X
+  return r;
+}
+static std::string check_row(const Row& c) {
+  const uint64_t want = c.big ? reverse_bytes(c.input_bits, c.size) : c.input_bits;   // little-endian host (the sweeps verify that assumption)
+  if (c.got_bits == want) return "";
+  char b[256]; snprintf(b, sizeof b, "wrong-conversion: constant initialised with HostEndian<%s>::%s(0x%" PRIx64 ") is 0x%" PRIx64 ", expected 0x%" PRIx64, c.type, c.fn, c.input_bits, c.got_bits, want);
+  return b;
+}
+}  // namespace c20const
+
 int main(int argc, char** argv) {
   Args a = Args::parse(argc, argv);
   Report rep; rep.property = "C20"; rep.tier = a.tier; rep.seed = a.seed; rep.out_path = a.out; rep.unit = a.unit.empty() ? "endian" : a.unit;
@@ -94,7 +121,13 @@ int main(int argc, char** argv) {
   if (!a.replay.empty()) {
     FILE* f = fopen(a.replay.c_str(), "r"); if (!f) return 2;
     char line[512]; std::string text; while (fgets(line, sizeof line, f)) if (line[0] != '#') text += line; fclose(f);
-    char tn[64]; uint64_t u = 0;
+    char tn[64]; uint64_t u = 0; unsigned ci = 0;
+    if (sscanf(text.c_str(), "prop=C20 const=%u", &ci) == 1) {
+      auto cr = c20const::rows(); if (ci >= cr.size()) return 2;
+      std::string m = c20const::check_row(cr[ci]);
+      if (!m.empty()) { printf("REPLAY-FAIL %s\n", m.c_str()); return 1; }
+      printf("REPLAY-PASS\n"); return 0;
+    }
     if (sscanf(text.c_str(), "prop=C20 type=%63s bits=0x%" SCNx64, tn, &u) != 2) { fprintf(stderr, "bad replay file\n"); return 2; }
     for (auto& t : ts) if (t.name == std::string(tn)) { std::string m = t.check(u); if (!m.empty()) { printf("REPLAY-FAIL %s\n", m.c_str()); return 1; } printf("REPLAY-PASS\n"); return 0; }
     return 2;
@@ -108,6 +141,15 @@ int main(int argc, char** argv) {
     return true;
   };
 
+  if (a.shard == 0) {
+    auto cr = c20const::rows();
+    for (size_t i = 0; i < cr.size(); i++) {
+      rep.evaluations++;
+      std::string m = c20const::check_row(cr[i]);
+      if (!m.empty()) rep.fail(m, "prop=C20 const=" + std::to_string(i), std::string("C20|constant|") + cr[i].type + "|" + cr[i].fn);
+      rep.label("constant-initialisers");
+    }
+  }
   for (size_t ti = 0; ti < ts.size(); ti++) {
     const TypeRow& t = ts[ti];
     if ((int)(ti % (size_t)a.nshards) != a.shard && t.size != 4) continue;   // 32-bit sweeps are split inside
